@@ -27,7 +27,7 @@ func init() {
 		Level:     "other",
 		Technique: "term agreement and must-facts at the fee transfer call site; loop-shape analysis (one call per Alphabet key, no early exit); dominance of the registry write by the loop exit",
 		Explanation: "D1 the amount argument of the transferX call in PutNamed equals Ext(netmap,config,ContainerFee) when name == \"\" and ContainerFee + ContainerAliasFee when name != \"\" (the same predicate controls the alias registration), and is loop-invariant; " +
-			"D2 the call sits in a range loop over the committee keys with no exit other than exhaustion, to = CreateStandardAccount(element), from = the script hash of the owner parsed from the blob, details = 0x10‖id; D3 the registry write is dominated by the loop exit, no exception-catching frame encloses the calls, and balance.TransferX cannot return normally from a refused transfer (C01).",
+			"D2 the call sits in a range loop over the committee keys with no exit other than exhaustion, to = CreateStandardAccount(element), from = the script hash of the owner parsed from the blob, details = 0x10‖id; D3 the registry write is dominated by the loop exit, no exception-catching frame encloses the calls, and balance.TransferX cannot return normally from a refused transfer (C01). D4 every normal return of netmap.SetConfig has stored the submitted value (a fee of 0 included). D5 the debit/credit leg rules of balance's transfer helper (C01) are re-run: payer = payee included.",
 		NotCovered: "numeric exactness at the balance boundary is delegated to C01 (Balance ≥ amount guard) and VM atomicity.",
 		Run:        runC05,
 	})
@@ -37,7 +37,7 @@ func init() {
 		Technique: "typestate/loop-shape analysis of the counting loop (membership test dominates acceptance, insertion on the counting path, collection scope), key-schema analysis of the roster families, must-facts at the acceptance and notification sites",
 		Explanation: "D1 roster keys are 'u'|'n' ‖ cid(32, guarded) ‖ vector(1) ‖ counter and 'r' ‖ cid ‖ index: scans per cid / (cid, vector) are exact; D2 CommitContainerListUpdate deletes every old 'n' and 'r' key of the cid, and for every scanned 'u' key deletes it and puts 'n'‖key[1:] with the same value, the old-'n' scan preceding the first 'n' put; " +
 			"D3 distinct-principal counting: in VerifyPlacementSignatures the signature check is reachable only through the exhausted exit of a membership loop comparing the candidate member key with a collection that outlives one signature iteration and is initialised per vector; the member key is inserted and the counter incremented only on the success branch; D3b a vector is accepted only under counter == REP read from family 'r' of the same cid, the nodes are scanned for the same vector index that selects sigs[i], and true is returned only after the REP scan is exhausted; " +
-			"D4 SubmitObjectPut notifies only if VerifyPlacementSignatures(cid read from the meta map, the meta bytes, the signatures) returned true and the meta flag of that cid is present.",
+			"D4 SubmitObjectPut notifies only if VerifyPlacementSignatures(cid read from the meta map, the meta bytes, the signatures) returned true and the meta flag of that cid is present. D6 each of the five loops of the commit is reached on every normal path (REP writes only for a non-nil list), ends only on exhaustion and no iteration goes round its operation.",
 		NotCovered: "the BE16 counter encoding across 127/255/256 (counterToBytes/counterFromBytes are value-level byte manipulations), submission order equality with a model.",
 		Run:        runC14,
 	})
